@@ -159,6 +159,8 @@ GOLDEN = [
      bits(11, 8) + bits(12, 8) + bits(10, 8), None),
     ("golden-usize-max-literal", "pub fn main(z: u8) -> (bool, usize) { let m = 4294967295usize; (m > 4294967294usize, m) }",
      "1" + bits(4294967295, 32), None),
+    ("golden-index-starts-with-number", "pub fn main(z: u8) -> (u8, u8, u8) { let a = [10u8, 20u8, 30u8, 40u8]; let i = (z ^ z) as usize; (a[1 + i], a[i + 2], a[3]) }",
+     bits(20, 8) + bits(30, 8) + bits(40, 8), None),
     ("golden-assign-zero-sized", "pub fn main(z: u8) -> u8 { let mut a = [(); 3]; a[1usize] = (); 7u8 }",
      bits(7, 8), None),
     ("golden-short-circuit", "pub fn main(z: u8) -> (bool, u8, bool, u8) { let mut x = 1u8; let r = false && ({ x = 9u8; true }); let mut y = 1u8; let s = true || ({ y = 9u8; false }); (r, x, s, y) }",
